@@ -542,7 +542,11 @@ class SimplicialComplex(Hypergraph):
             first_elem = None
 
         format1, format2, format3, format4 = False, False, False, False
-        if isinstance(first_elem, Iterable):
+        # a set is never one of the positional formats 2-4: its elements are the
+        # members, even when they are iterable themselves (e.g. tuple node labels)
+        if isinstance(first_elem, Iterable) and not isinstance(
+            first_edge, (set, frozenset)
+        ):
             if all(isinstance(e, str) for e in first_edge):
                 format1 = True
             elif len(first_edge) == 2 and issubclass(type(first_edge[1]), Hashable):
